@@ -275,9 +275,13 @@ func (e *Exec) loopCut(st *State, fr *Frame, b, pred *ssa.BasicBlock) bool {
 					fmt.Sscanf(ex, "-%d +%d", &p, &q)
 					g := fmt.Sprintf("len(vm.stack) == head(len(vm.stack)) - %d + %d", p, q)
 					e.Assert(base+"/post[stack]", "post", fr.fn.String(), st, e.evalBool(g, env), g)
+					gb := fmt.Sprintf("forall(k, 0, head(len(vm.stack)) - %d, vm.stack[k] == head(vm.stack[k]))", p)
+					e.Assert(base+"/post[below]", "post", fr.fn.String(), st, e.evalBool(gb, env), gb)
 				case "stack-dyn":
 					g := fmt.Sprintf("len(vm.stack) == head(len(vm.stack)) - (%s) + 1", ex)
 					e.Assert(base+"/post[stack]", "post", fr.fn.String(), st, e.evalBool(g, env), g)
+					gb := fmt.Sprintf("forall(k, 0, head(len(vm.stack)) - (%s), vm.stack[k] == head(vm.stack[k]))", ex)
+					e.Assert(base+"/post[below]", "post", fr.fn.String(), st, e.evalBool(gb, env), gb)
 				case "operand":
 					// instructions without a jump operand advance ip by their own size
 					sz := 0
